@@ -572,15 +572,15 @@ def cfg_class(block, c):
         parts.append('rv!=0')
     if block == 'ModuloCounter':
         parts.append('mod_pow2={}'.format(c['mod'] == 1 << c['w']))
-    if 'wq' in c and c['wq'] != c['w']:
+    if 'wq' in c and 'w' in c and c['wq'] != c['w']:
         parts.append('wq!=w')
     return ','.join(parts)
 
 
 # ---- execution ----------------------------------------------------------------------------------------
-def run_history(block, cfg, hist, collect_events=True):
+def run_history(block, cfg, hist, collect_events=True, table=None, invariants=None):
     """returns ('rejected', why) | ('fail', sig, msg) | ('ok', events, required)"""
-    Mcls, build = BLOCKS[block]
+    Mcls, build = (table or BLOCKS)[block]
     model = Mcls(cfg)
     inw, outw = model.ports(), model.outs()
     try:
@@ -597,6 +597,8 @@ def run_history(block, cfg, hist, collect_events=True):
         b.simulator()
         for t, vec in enumerate(hist):
             vec = [x & mask(w) for x, w in zip(vec, inw)]
+            if hasattr(model, 'sanitize'):
+                vec = model.sanitize(vec)       # environment assumptions of the property (counted by the model)
             b.poke(vec)
             b.settle()
             if t > 0:
@@ -605,11 +607,19 @@ def run_history(block, cfg, hist, collect_events=True):
                     return ('fail', '{}|{}|pre_edge'.format(block, cc),
                             '{} cfg={} cycle {} inputs {}: outputs before the edge {} expected {} (history {})'.format(
                                 block, cfg, t, vec, got, exp, hist[:t + 1]))
+            pre = b.read()
             model.tick(vec)
             b.clk(1)
             got, exp = b.read(), [x & mask(w) for x, w in zip(model.out(vec), outw)]
+            if invariants is not None:
+                bad = invariants(model, t, vec, pre, got)
+                if bad:
+                    return ('fail', '{}|{}|invariant:{}'.format(block, cc, bad[0]),
+                            '{} cfg={} cycle {} inputs {}: {} (outputs before {} after {}; history {})'.format(
+                                block, cfg, t, vec, bad[1], pre, got, hist[:t + 1]))
             if got != exp:
-                return ('fail', '{}|{}|post_edge'.format(block, cc),
+                feat = model.feature() if hasattr(model, 'feature') else ''
+                return ('fail', '{}|{}|post_edge{}'.format(block, cc, '|' + feat if feat else ''),
                         '{} cfg={} cycle {} inputs {}: outputs after the edge {} expected {} (history {})'.format(
                             block, cfg, t, vec, got, exp, hist[:t + 1]))
     except HarnessError:
@@ -617,7 +627,7 @@ def run_history(block, cfg, hist, collect_events=True):
     except Exception as e:
         es = exception_signature(e) or 'exc:' + type(e).__name__
         return ('fail', '{}|{}|{}'.format(block, cc, es), '{} cfg={} raised {!r} while simulating'.format(block, cfg, e))
-    return ('ok', model.events, model.required)
+    return ('ok', model.events, model.required, model)
 
 
 def run_case(case):
@@ -731,15 +741,17 @@ TINY = [
 ]
 
 
-def _bfs_task(task):
+def _bfs_task(task, table=None, invariants=None):
     """Exhaustive exploration by iterative deepening over input sequences is exponential; instead the
     product machine (model state) is explored breadth-first: for each newly reached model state the
     shortest input history leading to it is replayed on a fresh implementation and then every input
     vector is applied once (so every transition of the reachable product machine is executed)."""
     block, cfg = task['block'], task['cfg']
-    Mcls = BLOCKS[block][0]
+    Mcls = (table or BLOCKS)[block][0]
     inw = Mcls(cfg).ports()
-    vectors = [list(v) for v in itertools.product(*[range(1 << w) for w in inw])] if inw else [[]]
+    pv = task.get('port_values')
+    vectors = [list(v) for v in itertools.product(*[(pv[k] if pv and pv[k] is not None else range(1 << w))
+                                                    for k, w in enumerate(inw)])] if inw else [[]]
 
     def key(m):
         d = dict(m.__dict__)
@@ -747,11 +759,15 @@ def _bfs_task(task):
         d.pop('cfg', None)
         d.pop('required', None)
         d.pop('written', None)
+        d.pop('sanitized', None)
+        d.pop('excluded_known', None)
         return repr(sorted(d.items()))
 
     def state_after(hist):
         m = Mcls(cfg)
         for v in hist:
+            if hasattr(m, 'sanitize'):
+                v = m.sanitize(v)
             m.tick(v)
         return m
 
@@ -766,7 +782,7 @@ def _bfs_task(task):
             for v in vectors:
                 h2 = hist + [v]
                 # the extra repeated vector checks the pre-edge (Mealy) view of the reached state as well
-                r = run_history(block, cfg, h2 + [v])
+                r = run_history(block, cfg, h2 + [v], table=table, invariants=invariants)
                 evals += 1
                 transitions += 1
                 if r[0] == 'fail':
